@@ -218,6 +218,12 @@ func emit19(p *interpgen.Program) {
 		c.Violate("Debugger/final-callback-does-not-match-verdict", strings.Join(rec.Trace, " "), p)
 	}
 	lc := lifecycleOnly(rec.Trace)
+	if rec.TraceBytes > 8<<20 {
+		c.Tally(p.Kind + "/trace-too-large-for-model")
+		c.Case("", p, key(p), rec.Steps > 0)
+		return
+	}
+	c.Weigh(rec.TraceBytes / 64)
 	c.Case(fmt.Sprintf("mkCase19 (%s 0) %s", interpgen.CoqCase(p, rec), common.CoqStr(lc)), p, key(p), rec.Steps > 0)
 }
 
